@@ -82,6 +82,30 @@ def ev_concrete(lc, pub, priv, P):
     return s % P
 
 
+class _PreludeAbort(Exception):
+    pass
+
+
+def run_prelude(env, cfg):
+    """history before the program under test: regions that were entered and left (or aborted) earlier in the run must not
+    influence it (state restored: C08) -- exercised here so that each property sees such histories too"""
+    rt = env.rt
+    for kind in cfg.get("prelude") or ():
+        if kind == "false_region":
+            rt.guarded(rt.PrivVal(0))(lambda: None)()
+        elif kind == "true_region":
+            rt.guarded(rt.PrivVal(1))(lambda: None)()
+        elif kind == "aborted_region":
+            def boom():
+                raise _PreludeAbort()
+            try:
+                rt.guarded(rt.PrivVal(0))(boom)()
+            except _PreludeAbort:
+                pass
+        else:
+            raise KeyError(kind)
+
+
 def run_concrete(env, entry, cfg, inputs):
     """run entry on plain integers.  returns dict(outcome='ok'|'exc', result, exc, pub, priv, cons, state, ref)"""
     n, r = cfg.get("n", 4), cfg.get("r", 2)
@@ -103,6 +127,7 @@ def run_concrete(env, entry, cfg, inputs):
         return out
     if cfg.get("ignore"):
         rt.ignore_errors(True)
+    run_prelude(env, cfg)
     fn = lambda: entry.fn(k)
     for gn in reversed(gnames):
         fn = (lambda inner, gn=gn: (lambda: rt.guarded(k.G(gn))(inner)()))(fn)
